@@ -8,11 +8,12 @@ import CalVerif.Gen.FormatTables
     * `builtinByCode`   ↔ `builtin_format_by_code` (body = the generated table `Gen.builtinByCodeTable`)
     * `formatF64/I64`   ↔ `format_excel_f64(_ref)` / `format_excel_i64` (the wrap decision)
 
-    The scanner keeps the Rust state variables one to one (`escaped, is_quote, brackets : u8, prev, hms, ap`)
+    The scanner keeps the Rust state variables one to one (`escaped, is_quote, brackets : usize, prev, hms, ap`)
     and `step` tests the arms of the Rust `match (s, escaped, is_quote, ap, brackets)` in source order.
     `detect` is the code as it is in /repo now (after the ledger fix D14, which moved the two in-quote arms
-    in front of the escape arm); `detectD14` is the arm order of the pinned snapshot, kept so that the
-    defect stays a checked statement (`Props/C10.d14_witness`) and the harness can tell the two apart. -/
+    in front of the escape arm, and fix 8b86d6e, which widened the bracket counter); `detectD14` is the arm ORDER
+    of the pinned snapshot (with today's counter), kept so that the defect stays a checked statement
+    (`Props/C10.d14_witness`) and the harness can tell the two apart. -/
 
 namespace Formats
 
@@ -42,7 +43,9 @@ def isHmsChar (c : Char) : Bool := c == 'm' || c == 'h' || c == 's' || c == 'M' 
 structure St where
   escaped : Bool
   isQuote : Bool
-  /-- `u8` -/
+  /-- `usize` nesting depth. It is incremented at most once per character and a `&str` has at most `isize::MAX`
+      bytes, so `brackets += 1` cannot overflow: modelled as an unbounded `Nat` (until fix 8b86d6e this was a `u8`
+      that overflowed on the 256th unclosed `[`, ledger D30-b) -/
   brackets : Nat
   prev : Char
   hms : Bool
@@ -56,8 +59,6 @@ def St.init : St := { escaped := false, isQuote := false, brackets := 0, prev :=
 inductive Step where
   | cont (st : St)
   | ret (f : CellFormat)
-  /-- `brackets += 1` on `255u8` (arithmetic overflow under `overflow-checks`; ledger D30-b) -/
-  | panic
   deriving DecidableEq, Repr
 
 /-- arms after the escape / quote arms (identical in both arm orders), followed by `prev = s` -/
@@ -67,8 +68,7 @@ def stepTail (st : St) (s : Char) : Step :=
   -- (';', ..) => return CellFormat::Other
   else if s = ';' then .ret .other
   -- ('[', ..) => brackets += 1
-  else if s = '[' then
-    if st.brackets ≥ 255 then .panic else .cont { st with brackets := st.brackets + 1, prev := s }
+  else if s = '[' then .cont { st with brackets := st.brackets + 1, prev := s }
   -- (']', .., 1) if hms => return CellFormat::TimeDelta
   else if s = ']' ∧ st.brackets = 1 ∧ st.hms = true then .ret .timeDelta
   -- (']', ..) => brackets = brackets.saturating_sub(1)
@@ -114,7 +114,6 @@ def scanWith (stp : St → Char → Step) : St → List Char → Res CellFormat
     match stp st c with
     | .cont st' => scanWith stp st' cs
     | .ret f => .ok f
-    | .panic => .panic "formats::detect_custom_number_format: attempt to add with overflow (brackets)"
 
 def scan : St → List Char → Res CellFormat := scanWith step
 
